@@ -351,6 +351,17 @@ def r4_range_only_partial_ops(w):
         else:
             r.bad(cons, key, 'undischarged partial operation in %s reachable from range formatting: `%s` (operands: %s)'
                   % (b.short, ob.get('path', ob['op']), key.split('|', 3)[-1][:160]), b.loc(ob['term']['span']))
+    # the indentation of the selection is counted on the text between the last line break and the selection; `str::lines` cannot find that text:
+    # it yields no empty last line, so for a selection that starts at column 0 the previous line's indentation is taken (seed C13/5A)
+    for bid in sorted(range_only):
+        fb = w.bodies.get(bid)
+        if fb is None or fb.locals[0]['ty']['s'] != 'usize':
+            continue
+        for bi, t in fb.calls():
+            if (callee_path(t) or '').endswith('<impl str>::lines'):
+                r.bad({'fn': fb.short, 'call': 'str::lines'}, '%s|last-line|lines' % c05._stable(fb.short),
+                      '%s counts the indentation in front of the selection on a line found with `str::lines`, which drops the empty last line after a trailing line break: a '
+                      'selection that starts at column 0 is nested by the indentation of the line before it (items and continuation lines move)' % fb.short, fb.loc(t['span']))
     # D7 (character boundaries of str slices) for the functions only the range entry reaches (C05.R3 covers the whole-document scope)
     for ok, cons, key, why, loc in c05.char_boundary_obligations(w, range_only | {entry.id}):
         if ok:
